@@ -30,6 +30,9 @@ use ckb_logger::{error, info};
 use ckb_store::{ChainDB, ChainStore};
 use ckb_types::{BlockNumberAndHash, H256};
 pub use init::{ChainServiceScope, build_chain_services, start_chain_services};
+/// verif hook: the orphan pool as a stand-alone structure
+#[cfg(feature = "verif-hooks")]
+pub use utils::orphan_block_pool::OrphanBlockPool;
 
 type ProcessBlockRequest = Request<LonelyBlock, ()>;
 type TruncateRequest = Request<Byte32, Result<(), Error>>;
